@@ -100,7 +100,7 @@ class PathResult:
         self.steps = 0; self.queries = 0; self.solver_time = 0.0; self.unknown_branches = 0
         self.calls = set()
         self.decisions = []
-        self.sample = None
+        self.sample = None; self.witness = None
 
 tl = threading.local()
 
@@ -273,7 +273,7 @@ class Interp:
                                'decisions': [list(d) if isinstance(d, tuple) else d for d in self.decisions[:self.dpos]], 'solver': solver})
 
     # --- running one path
-    def run_path(self, entry, prefix):
+    def run_path(self, entry, prefix, want_witness=False):
         self.res = res = PathResult()
         self.decisions = [tuple(d) if isinstance(d, list) else d for d in prefix]; self.dpos = 0; self.nsym = 0; self.inputs = []
         self.solver.reset(); self.pathcache = {}; self.named = {}; self.sfacts = {}; self.steps = 0; self.expect = []
@@ -310,9 +310,12 @@ class Interp:
             res.status = 'unsupported'; res.detail = 'internal: %r @ %s' % (e, traceback.format_exc().strip().split('\n')[-3].strip()[:160])
         res.steps = self.steps; res.queries = self.solver.queries - q0; res.solver_time = self.solver.time - t0
         res.decisions = [list(d) if isinstance(d, tuple) else d for d in self.decisions[:self.dpos]]
-        if res.status == 'ok' and self.inputs:
-            # one witness per completed path (sample for the evidence file)
-            pass
+        if res.status == 'ok' and want_witness and not res.violations:
+            # a concrete witness of this completed path: replayed natively by the driver (validates the executor against the compiled code)
+            st, vals = self.solver.model(self.input_names())
+            if st == 'sat' or not self.inputs:
+                res.witness = {'inputs': self.model_record(vals if st == 'sat' else {}), 'sched': [d[1] for d in self.decisions[:self.dpos] if isinstance(d, tuple) and d[0] == 's'],
+                               'checks': sorted(set(c[0] for c in res.checks)), 'covers': sorted(c for c in res.covers if not c.startswith('bound:'))}
         return res
 
     def on_panic(self, e):
